@@ -58,6 +58,8 @@ class _Sub(ast.NodeTransformer):
 def propagate_function(f, ref_names):
     done = []
     params = {a.arg for a in ast.walk(f.args) if isinstance(a, ast.arg)}
+    if not (alpha.bound_names(f) - set(ref_names) - params):
+        return done
     for _round in range(6):
         changed = False
         bound = alpha.bound_names(f)
